@@ -570,7 +570,25 @@ def op_lists(draw, basis, max_ops=12):
         elif kind == "advance":
             ops.append([kind, draw(st.integers(0, 5)), draw(st.integers(1, 30))])
         elif kind == "subclass":
-            other = draw(classical_basis()) if draw(st.integers(0, 3)) else draw(mesh_basis())
+            rel = draw(st.sampled_from(["random", "random", "superset", "subset", "same", "extended_element"]))
+            cl = [b for b in basis if not (b and isinstance(b[0], list))]
+            if rel == "random" or not cl:
+                other = draw(classical_basis()) if draw(st.integers(0, 3)) else draw(mesh_basis())
+            elif rel == "superset":
+                other = list(basis) + [list(p) for p in draw(st.lists(gen.perms(2, 5), min_size=1, max_size=2))]
+            elif rel == "subset":
+                keep = [b for b in basis if draw(st.booleans())] or [basis[0]]
+                other = keep
+            elif rel == "same":
+                other = list(reversed(basis))
+            else:
+                # every element replaced by a one-point extension of itself: a superclass
+                other = []
+                for b in cl:
+                    v, i = draw(st.integers(0, len(b))), draw(st.integers(0, len(b)))
+                    ext = [w + 1 if w >= v else w for w in b]
+                    ext.insert(i, v)
+                    other.append(ext)
             ops.append([kind, inst, other])
         elif kind == "clear":
             ops.append([kind])
